@@ -409,7 +409,7 @@ func ruleReplayOrder(c *Ctx) {
 			return
 		}
 		f, base, ok := fieldAddr(st.Addr)
-		if !ok || f.Name() != "Timestamp" || !typeIs(base.Type(), modRel("av/format/flv"), "Tag") {
+		if !ok || theProgram.baseFieldName(f) != "Timestamp" || !typeIs(base.Type(), modRel("av/format/flv"), "Tag") {
 			return
 		}
 		nstamp++
@@ -466,7 +466,7 @@ func checkCacheLocked(c *Ctx, fn *ssa.Function, write bool) {
 			return
 		}
 		f, _, _ := fieldAddr(fa)
-		if f == nil || f.Name() == "l" || f.Name() == "cacheGop" {
+		if f == nil || theProgram.baseFieldName(f) == "l" || theProgram.baseFieldName(f) == "cacheGop" {
 			return
 		}
 		// how is it used: store => write
@@ -567,7 +567,7 @@ func ruleCacheSiblings(c *Ctx) {
 				return false
 			}
 			f, base, ok := fieldAddr(cc.Args[0])
-			return ok && f.Name() == "gop" && origin(base) == recv
+			return ok && theProgram.baseFieldName(f) == "gop" && origin(base) == recv
 		}
 		violations := map[string]ssa.Instruction{}
 		npush, nstore, nreset := 0, 0, 0
@@ -606,7 +606,7 @@ func ruleCacheSiblings(c *Ctx) {
 					}
 					return s, true
 				}
-				if f, base, ok := fieldLoad(cv); ok && f.Name() == "cacheGop" && origin(base) == recv {
+				if f, base, ok := fieldLoad(cv); ok && theProgram.baseFieldName(f) == "cacheGop" && origin(base) == recv {
 					if val {
 						s.Cache = 1
 					} else {
